@@ -331,6 +331,86 @@ func TestVerif_C09_Resolution(t *testing.T) {
 	})
 }
 
+// ---- facet (f) one parent object, many children -----------------------------------------------------------
+//
+// In the pipeline all children of a page are normalised against the *same* parent object, one after the other. The
+// canonical form is a function of the reference text and the parent's URL: it must not depend on which siblings were
+// normalised before, and normalising a child must leave the parent as it was.
+
+type c09Shared struct {
+	Parent verifgen.WFAbs   `json:"parent"`
+	Refs   []verifgen.WFRef `json:"refs"`
+}
+
+func propC09SharedParent(t veriflib.TB, c c09Shared) {
+	const facet = "C09/shared-parent"
+	parentText := c.Parent.Text()
+	want := make([]string, len(c.Refs))
+	for i, r := range c.Refs {
+		got, errText, rej := normOnce(r.Text(), parentText)
+		if rej {
+			veriflib.Fail(t, "C09", facet, c, nil, "well-formed parent %q rejected", parentText)
+		}
+		want[i] = got + errText
+	}
+	p := &models.URL{Raw: parentText}
+	if err := NormalizeURL(p, nil); err != nil {
+		veriflib.Fail(t, "C09", facet, c, nil, "well-formed parent %q rejected: %v", parentText, err)
+	}
+	before := p.String()
+	kinds := map[string]bool{}
+	for i, r := range c.Refs {
+		u := &models.URL{Raw: r.Text()}
+		got := ""
+		if err := NormalizeURL(u, p); err != nil {
+			got = "ERR:" + err.Error()
+		} else {
+			got = u.String()
+		}
+		if got != want[i] {
+			veriflib.Fail(t, "C09", facet, c, nil,
+				"reference %d %q against parent %q gives %q when the parent object is fresh, but %q after %d sibling(s) were normalised against the same parent object",
+				i, r.Text(), parentText, want[i], got, i)
+		}
+		if after := p.String(); after != before {
+			veriflib.Fail(t, "C09", facet, c, nil, "normalising the child %q changed the canonical form of its parent from %q to %q", r.Text(), before, after)
+		}
+		kinds[r.Kind] = true
+	}
+	cl := []string{fmt.Sprintf("refs:%d", len(c.Refs)), fmt.Sprintf("kinds:%d", len(kinds))}
+	for k := range kinds {
+		cl = append(cl, "ref:"+k)
+	}
+	veriflib.Record(facet, veriflib.JSON(c), len(kinds) >= 2 && len(c.Parent.Segs) >= 1, cl, func() any {
+		return map[string]any{"parent": parentText, "refs": func() []string {
+			var out []string
+			for _, r := range c.Refs {
+				out = append(out, r.Text())
+			}
+			return out
+		}(), "canonical": want}
+	})
+}
+
+func TestVerif_C09_SharedParent(t *testing.T) {
+	defer veriflib.Flush()
+	var rc c09Shared
+	if veriflib.ReplayCase("C09/shared-parent", &rc) {
+		propC09SharedParent(t, rc)
+		return
+	} else if veriflib.Replaying() {
+		t.Skip()
+	}
+	rapid.Check(t, func(t *rapid.T) {
+		c := c09Shared{Parent: verifgen.WFAbsGen(t, "parent")}
+		n := rapid.IntRange(2, 6).Draw(t, "nrefs")
+		for i := 0; i < n; i++ {
+			c.Refs = append(c.Refs, verifgen.WFRefGen(t, fmt.Sprintf("ref%d", i)))
+		}
+		veriflib.Guard("C09", "C09/shared-parent", c, func() { propC09SharedParent(t, c) })
+	})
+}
+
 // ---- oracle self-test: the RFC 3986 resolver agrees with net/url on the well-formed grammar -------
 
 func TestVerif_C09_OracleSelfTest(t *testing.T) {
